@@ -10,6 +10,7 @@ use bourse_book::verif::book::*;
 #[allow(unused_imports)]
 use bourse_book::verif::src::*;
 use bourse_book::{vcheck, vcover, vharnesses};
+use bourse_book::OrderError;
 use rand::seq::SliceRandom;
 
 impl<const L: usize> Env<L> {
@@ -32,6 +33,35 @@ impl<const L: usize> Env<L> {
     pub fn verif_step_size(&self) -> Nanos {
         self.step_size
     }
+    /// every queued instruction is a cancellation of a tracked order that was active
+    pub fn verif_queued_cancels_only(&self, tracked: &[OrderId], was_active: &[bool]) -> bool {
+        let mut ok = true;
+        let mut i = 0;
+        while i < self.transactions.len() {
+            ok &= match &self.transactions[i] {
+                Event::Cancellation { order_id } => {
+                    let mut hit = false;
+                    let mut k = 0;
+                    while k < tracked.len() {
+                        hit |= tracked[k] == *order_id && was_active[k];
+                        k += 1;
+                    }
+                    hit
+                }
+                _ => false,
+            };
+            i += 1;
+        }
+        ok
+    }
+    /// (kind 0 New | 1 Cancellation | 2 Modify, order id) of the i-th queued instruction
+    pub fn verif_queued(&self, i: usize) -> (u8, OrderId, Option<Price>, Option<Vol>) {
+        match &self.transactions[i] {
+            Event::New { order_id } => (0, *order_id, None, None),
+            Event::Cancellation { order_id } => (1, *order_id, None, None),
+            Event::Modify { order_id, new_price, new_vol } => (2, *order_id, *new_price, *new_vol),
+        }
+    }
 }
 
 // ------------------------------------------------------------------------------------------
@@ -47,12 +77,36 @@ pub struct Ev {
     pub nv: Option<Vol>,
 }
 
-/// an arbitrary instruction on any of the first `n_ids` orders (any status, duplicates allowed)
-pub fn gen_ev(n_ids: usize, tick: Price, kinds: u8) -> Ev {
-    let kind = any_u8();
-    assume(kind < kinds);
-    let id = any_usize();
-    assume(id < n_ids);
+/// what the harness fixes about one queued instruction (`ANY` = symbolic)
+#[derive(Clone, Copy)]
+pub struct EvSpec {
+    /// 0 New | 1 Cancellation | 2 Modify | ANY
+    pub kind: u8,
+    /// target order id | usize::MAX = any existing id
+    pub id: usize,
+}
+pub const ANY: u8 = 255;
+pub const EV_ANY: EvSpec = EvSpec { kind: ANY, id: usize::MAX };
+pub const fn ev(kind: u8, id: usize) -> EvSpec {
+    EvSpec { kind, id }
+}
+
+/// an instruction on one of the first `n_ids` orders (any status, duplicates allowed)
+pub fn gen_ev(n_ids: usize, tick: Price, spec: EvSpec) -> Ev {
+    let kind = if spec.kind == ANY {
+        let k = any_u8();
+        assume(k < 3);
+        k
+    } else {
+        spec.kind
+    };
+    let id = if spec.id == usize::MAX {
+        let i = any_usize();
+        assume(i < n_ids);
+        i
+    } else {
+        spec.id
+    };
     let mut np = None;
     let mut nv = None;
     if kind == 2 {
@@ -179,7 +233,25 @@ pub fn assume_batch_valid<const N: usize>(p: &Plain<N>, evs: &[Ev], nb: usize, d
 
 /// `Env::step` on an arbitrary environment: `m` table entries, `NB` queued instructions, `k` prior
 /// records, symbolic generator words
-pub fn step_env<const N: usize, const L: usize, const NB: usize>(m: usize, k: usize, cfg: GenCfg, mask: u32, kinds: u8) {
+pub fn step_env<const N: usize, const L: usize, const NB: usize>(m: usize, k: usize, cfg: GenCfg, mask: u32, spec: [EvSpec; NB]) {
+    step_env_sched::<N, L, NB>(m, k, cfg, mask, spec, None)
+}
+
+/// representative generator words for each schedule of a batch of 2 / 3 (all accepted at first
+/// draw): with a CONCRETE schedule the instruction processed at each position is concrete, so the
+/// symbolic executor follows one dispatch path per position; which schedule a word selects is
+/// decided for ALL words by the shuffle lemmas (C15), and all n! schedules are enumerated here
+pub const SCHED2: [[u32; 2]; 2] = [[0x8000_0000, 0], [0, 0]];
+pub const SCHED3: [[u32; 2]; 6] = [
+    [0xAAAA_AAAB, 0x8000_0000],
+    [0xAAAA_AAAB, 0],
+    [0x5555_5556, 0x8000_0000],
+    [0x5555_5556, 0],
+    [0, 0x8000_0000],
+    [0, 0],
+];
+
+pub fn step_env_sched<const N: usize, const L: usize, const NB: usize>(m: usize, k: usize, cfg: GenCfg, mask: u32, spec: [EvSpec; NB], words: Option<[u32; 2]>) {
     let p: Plain<N> = gen_plain::<N>(m, cfg);
     assume(p.t < (1u64 << 62));
     let step_size = any_u64();
@@ -187,7 +259,7 @@ pub fn step_env<const N: usize, const L: usize, const NB: usize>(m: usize, k: us
     let mut evs = [Ev { kind: 1, id: 0, np: None, nv: None }; NB];
     let mut i = 0;
     while i < NB {
-        evs[i] = gen_ev(m, p.tick, kinds);
+        evs[i] = gen_ev(m, p.tick, spec[i]);
         i += 1;
     }
     assume_batch_valid(&p, &evs, NB, cfg.discipline);
@@ -200,7 +272,17 @@ pub fn step_env<const N: usize, const L: usize, const NB: usize>(m: usize, k: us
         i += 1;
     }
     let mut rng = SymRng::new();
-    shuffle_words(&mut rng, NB);
+    match words {
+        None => shuffle_words(&mut rng, NB),
+        Some(w) => {
+            let mut i = 0;
+            while i + 1 < NB {
+                rng.pre[i] = w[i] as u64;
+                rng.npre += 1;
+                i += 1;
+            }
+        }
+    }
     rng.strict = true;
     let mut rng2 = rng;
 
@@ -234,7 +316,7 @@ pub fn step_env<const N: usize, const L: usize, const NB: usize>(m: usize, k: us
         vcheck!(b.get_trade_vol() == r.trade_vol, "STEP.trade_vol_counts_only_this_step");
         vcheck!(old_trades_unchanged(b, cfg.ntrades, &old), "STEP.old_trades_unchanged");
         vcheck!(index_equals_reload::<N, L>(b), "INDEX.side_indexes_equal_rebuild_from_orders");
-        vcheck!(rng.calls == NB - 1 && !rng.overdrawn, "STEP.draws_exactly_the_shuffle_words");
+        vcheck!(rng.calls == NB.saturating_sub(1) && !rng.overdrawn, "STEP.draws_exactly_the_shuffle_words");
         vcheck!(env.trade_vols.len() == k + 1 && env.trade_vols[k] == r.trade_vol, "STEP.recorded_step_volume_is_this_steps");
     }
     if mask & E10 != 0 {
@@ -264,26 +346,415 @@ pub fn step_env<const N: usize, const L: usize, const NB: usize>(m: usize, k: us
         }
         vcheck!(env.trade_vols.len() == k + 1 && env.trade_vols[k] as u64 == sum, "RECORDS.step_volume_is_sum_of_trades_stamped_in_step");
     }
-    if NB == 2 {
-        vcover!(pi[0] == 1, "cover.batch_reversed");
-        vcover!(pi[0] == 0 && r.ntr >= 1, "cover.batch_in_order_with_trade");
+    if NB >= 2 && words.is_none() {
+        vcover!(pi[0] == NB - 1, "cover.last_submitted_processed_first");
+        if cfg.trading != Some(false) {
+            vcover!(pi[0] == 0 && r.ntr >= 1, "cover.in_order_with_trade");
+        }
+    }
+    if NB >= 2 && words.is_some() {
+        vcover!(r.ntr >= 1, "cover.schedule_with_trade");
+    }
+    if NB == 0 {
+        vcover!(p.trade_vol > 0, "cover.idle_step_after_trading_step");
     }
     core::mem::forget(env);
 }
 
+/// `Env::step` with `process_event` replaced by a logging stand-in: the step LOOP in isolation.
+/// Fully symbolic batch (kinds, ids, arguments, duplicates) and generator words, arbitrary book.
+pub fn step_loop<const N: usize, const L: usize, const NB: usize>(m: usize, k: usize) {
+    let cfg = LOG1;
+    let p: Plain<N> = gen_plain::<N>(m, cfg);
+    assume(p.t < (1u64 << 62));
+    let step_size = any_u64();
+    assume(step_size >= NB as u64 && step_size < (1u64 << 62));
+    let mut evs = [Ev { kind: 1, id: 0, np: None, nv: None }; NB];
+    let mut i = 0;
+    while i < NB {
+        evs[i] = gen_ev(m, p.tick, EV_ANY);
+        i += 1;
+    }
+    let (book, old) = build_with_log::<N, L>(&p, cfg.ntrades);
+    let mut env: Env<L> = Env::verif_from_book(step_size, book);
+    let saved = gen_records(&mut env, k);
+    let mut i = 0;
+    while i < NB {
+        env.transactions.push(to_event(&evs[i]));
+        i += 1;
+    }
+    let mut rng = SymRng::new();
+    shuffle_words(&mut rng, NB);
+    rng.strict = true;
+    let mut rng2 = rng;
+
+    env.step(&mut rng);
+
+    let mut pi = [0usize; NB];
+    let mut i = 0;
+    while i < NB {
+        pi[i] = i;
+        i += 1;
+    }
+    pi.shuffle(&mut rng2);
+    let b = &env.order_book;
+    let tr = b.get_trades();
+    vcheck!(env.transactions.is_empty(), "STEP.queue_empty_after_step");
+    vcheck!(b.get_time() == p.t + step_size, "STEP.clock_at_start_plus_step_size");
+    vcheck!(tr.len() == cfg.ntrades + NB, "STEP.every_instruction_processed_exactly_once");
+    let mut order_ok = true;
+    let mut time_ok = true;
+    let mut i = 0;
+    while i < NB {
+        if cfg.ntrades + i < tr.len() {
+            let t = &tr[cfg.ntrades + i];
+            let e = &evs[pi[i]];
+            let code = e.kind as usize + if e.np.is_some() { 4 } else { 0 } + if e.nv.is_some() { 8 } else { 0 };
+            order_ok &= t.active_order_id == e.id && t.passive_order_id == code && t.price == e.np.unwrap_or(0) && t.vol == e.nv.unwrap_or(0);
+            time_ok &= t.t == p.t + i as u64;
+        }
+        i += 1;
+    }
+    vcheck!(order_ok, "STEP.processing_order_is_the_permutation_the_words_induce_and_arguments_intact");
+    vcheck!(time_ok, "STEP.ith_processed_instruction_stamped_start_plus_i");
+    vcheck!(old_trades_unchanged(b, cfg.ntrades, &old), "STEP.old_trades_unchanged");
+    vcheck!(b.get_trade_vol() == NB as u32, "STEP.trade_vol_counts_only_this_step");
+    vcheck!(env.trade_vols.len() == k + 1 && env.trade_vols[k] == NB as u32, "STEP.recorded_step_volume_is_this_steps");
+    vcheck!(rng.calls == NB.saturating_sub(1) && !rng.overdrawn, "STEP.draws_exactly_the_shuffle_words");
+    // nothing else: the order table and both side indexes are as before
+    let mut e0 = p;
+    e0.t = p.t + step_size;
+    e0.trade_vol = NB as u32;
+    vcheck!(table_matches(b, &e0) && index_equals_reload::<N, L>(b), "STEP.applies_nothing_else");
+    vcheck!(l2_equal(&env.level_2_data, &b.level_2_data()), "CACHE.level_2_snapshot_equals_live_book_after_step");
+    vcheck!(records_faithful(&env, k), "RECORDS.one_faithful_entry_appended_to_every_series");
+    let _ = saved;
+    if NB >= 2 {
+        vcover!(pi[0] == NB - 1 && pi[NB - 1] == 0, "cover.first_and_last_swapped");
+        vcover!(evs[0].kind == 0 && evs[1].kind == 1 && evs[0].id == evs[1].id, "cover.place_and_cancel_of_the_same_order_in_one_batch");
+    }
+    core::mem::forget(env);
+}
+
+/// C10 / C12 at environment level: one submission (place / cancel / modify) on an arbitrary
+/// environment between steps.  Nothing observable changes except that a successfully created order
+/// appears with status New and the queue grows by exactly that instruction.
+pub fn submit_env<const N: usize, const L: usize>(m: usize, cfg: GenCfg, which_fixed: u8) {
+    let p: Plain<N> = gen_plain::<N>(m, cfg);
+    let (book, old) = build_with_log::<N, L>(&p, cfg.ntrades);
+    let twin = build::<N, L>(&p, 0);
+    let mut env: Env<L> = Env::verif_from_book(any_u64(), book);
+    let _saved = gen_records(&mut env, 1);
+    // one instruction is already waiting
+    let waiting = gen_ev(m, p.tick, EV_ANY);
+    env.transactions.push(to_event(&waiting));
+    // the cached snapshot is whatever the previous step left (arbitrary here: it must not be touched)
+    let cached: Level2Data<L> = Level2Data {
+        bid_price: any_u32(),
+        ask_price: any_u32(),
+        bid_vol: any_u32(),
+        ask_vol: any_u32(),
+        bid_price_levels: core::array::from_fn(|_| (any_u32(), any_u32())),
+        ask_price_levels: core::array::from_fn(|_| (any_u32(), any_u32())),
+    };
+    let cached_copy: Level2Data<L> = Level2Data {
+        bid_price: cached.bid_price,
+        ask_price: cached.ask_price,
+        bid_vol: cached.bid_vol,
+        ask_vol: cached.ask_vol,
+        bid_price_levels: cached.bid_price_levels,
+        ask_price_levels: cached.ask_price_levels,
+    };
+    env.verif_set_level_2_data(cached);
+    let rec_last = (env.level_2_data_records.prices.0[0], env.level_2_data_records.volumes.1[0], env.trade_vols[0]);
+
+    let which = if which_fixed == ANY {
+        let w = any_u8();
+        assume(w < 3);
+        w
+    } else {
+        which_fixed
+    };
+    let bid = any_bool();
+    let vol = any_u32();
+    let trader = any_u32();
+    let price = if any_bool() { Some(any_u32()) } else { None };
+    let id = any_usize();
+    let np = if any_bool() { Some(any_u32()) } else { None };
+    let nv = if any_bool() { Some(any_u32()) } else { None };
+    let mut expect_orders = m;
+    let mut expect_queue = 2usize;
+    match which {
+        0 => {
+            let on_grid = match price {
+                Some(px) => px % p.tick == 0,
+                None => true,
+            };
+            let got = env.place_order(mk_side(bid), vol, trader, price);
+            match got {
+                Ok(new_id) => {
+                    vcheck!(on_grid, "GRID.off_grid_creation_is_rejected");
+                    vcheck!(new_id == m, "SUBMIT.ids_dense_in_creation_order");
+                    expect_orders = m + 1;
+                    if env.order_book.verif_n_orders() == m + 1 {
+                        let o = env.order(m);
+                        let want_price = match price {
+                            Some(px) => px,
+                            None => if bid { Price::MAX } else { 0 },
+                        };
+                        vcheck!(o.status == Status::New && is_bid(o.side) == bid && o.vol == vol && o.start_vol == vol && o.price == want_price && o.trader_id == trader && o.order_id == m && o.arr_time == p.t && o.end_time == Nanos::MAX,
+                            "SUBMIT.new_order_appears_with_status_new_and_the_submitted_fields");
+                    }
+                    vcheck!(env.verif_queue_len() == 2 && env.verif_queued(1) == (0, m, None, None), "SUBMIT.queue_grows_by_exactly_the_new_order_instruction");
+                }
+                Err(e) => {
+                    vcheck!(!on_grid, "GRID.on_grid_creation_is_accepted");
+                    expect_queue = 1;
+                    let carries = match (e, price) {
+                        (OrderError::PriceError { price: ep, tick_size: et }, Some(px)) => ep == px && et == p.tick,
+                        _ => false,
+                    };
+                    vcheck!(carries, "GRID.error_reports_price_and_tick");
+                }
+            }
+        }
+        1 => {
+            env.cancel_order(id);
+            vcheck!(env.verif_queue_len() == 2 && env.verif_queued(1) == (1, id, None, None), "SUBMIT.queue_grows_by_exactly_the_cancel_instruction");
+        }
+        _ => {
+            env.modify_order(id, np, nv);
+            vcheck!(env.verif_queue_len() == 2 && env.verif_queued(1) == (2, id, np, nv), "SUBMIT.queue_grows_by_exactly_the_modify_instruction");
+        }
+    }
+    vcheck!(env.verif_queue_len() == expect_queue, "SUBMIT.queue_length");
+    vcheck!(env.verif_queued(0) == (waiting.kind, waiting.id, waiting.np, waiting.nv), "SUBMIT.waiting_instructions_untouched");
+    // invisible until the next step: live book (existing orders, trades, every view, clock, flag, counter)
+    let b = &env.order_book;
+    vcheck!(b.verif_n_orders() == expect_orders, "SUBMIT.rejected_creation_consumes_no_id");
+    vcheck!(snapshot_equal_prefix::<N, L>(b, &p, cfg.ntrades, &old), "SUBMIT.live_book_unchanged_until_next_step");
+    vcheck!(sides_same(b, &twin), "SUBMIT.side_indexes_untouched");
+    core::mem::forget(twin);
+    vcheck!(l2_equal(env.level_2_data(), &cached_copy), "SUBMIT.cached_level_2_snapshot_untouched");
+    let r = &env.level_2_data_records;
+    vcheck!(r.prices.0.len() == 1 && r.prices.1.len() == 1 && r.volumes.0.len() == 1 && r.volumes.1.len() == 1 && env.trade_vols.len() == 1
+        && r.prices.0[0] == rec_last.0 && r.volumes.1[0] == rec_last.1 && env.trade_vols[0] == rec_last.2, "SUBMIT.recorded_histories_untouched");
+    vcover!(which == 0 && expect_orders == m + 1 && price.is_some(), "cover.limit_order_created");
+    vcover!(which == 0 && expect_queue == 1, "cover.creation_rejected");
+    core::mem::forget(env);
+}
+
+// ------------------------------------------------------------------------------------------
+// C15: shuffle lemmas on the compiled rand 0.8.5 code
+// ------------------------------------------------------------------------------------------
+
+/// L2: the index draw behind `shuffle` (`gen_index` -> `gen_range(0..r)` ->
+/// `UniformInt::<u32>::sample_single_inclusive`) returns the high half of word * r for the first
+/// word whose low half lies in the acceptance zone, and consumes exactly the words up to that one
+pub fn lemma_index_draw() {
+    use rand::Rng;
+    let r = any_u32();
+    assume(r >= 1 && r <= 64);
+    let mut rng = SymRng::new();
+    let w1 = rng.push_u32();
+    let w2 = rng.push_u32();
+    // at most one rejection (a rejected word only re-enters the same loop with a fresh word)
+    assume(accepted_u32(w1, r) || accepted_u32(w2, r));
+    rng.strict = true;
+    let got: u32 = rng.gen_range(0..r);
+    vcheck!(got < r, "SHUFFLE.index_in_range");
+    if accepted_u32(w1, r) {
+        vcheck!(got == index_u32(w1, r) && rng.calls == 1, "SHUFFLE.accepted_word_yields_high_half_of_product_and_one_draw");
+    } else {
+        vcheck!(got == index_u32(w2, r) && rng.calls == 2, "SHUFFLE.rejected_word_is_discarded_and_redrawn");
+    }
+    vcheck!(!rng.overdrawn, "SHUFFLE.no_further_draws");
+    vcover!(!accepted_u32(w1, r), "cover.first_word_rejected");
+    vcover!(accepted_u32(w1, r) && got == r - 1 && r == 6, "cover.last_index_of_six");
+}
+
+/// L3: the acceptance zone Z(r) = (r << clz r) - 1 has Z(r) + 1 = r * 2^(clz r) exactly (no bits
+/// lost, no wrap), on the real `u32::leading_zeros`; hence Z(r)+1 is a multiple of r and every index
+/// value owns exactly 2^(clz r) accepted words: each accepted draw is exactly uniform on 0..r
+pub fn lemma_zone_is_multiple_of_range() {
+    let r = any_u32();
+    assume(r >= 1);
+    let k = r.leading_zeros();
+    let zone = (r << k).wrapping_sub(1);
+    // shifting in 64 bits loses nothing in 32: the product r * 2^k fits
+    vcheck!(((r as u64) << k) <= u32::MAX as u64, "SHUFFLE.zone_product_fits_32_bits");
+    vcheck!((zone as u64) + 1 == (r as u64) << k, "SHUFFLE.zone_plus_one_is_range_times_power_of_two");
+    // the harness's restatement of the acceptance test is the one the lemma is about
+    let v = any_u32();
+    vcheck!(accepted_u32(v, r) == (v.wrapping_mul(r) <= zone), "SHUFFLE.acceptance_test_restated");
+    vcover!(k == 29, "cover.small_range");
+}
+
+/// L4: for n items the map (index tuple) -> permutation realised by the compiled `shuffle` is
+/// injective; together with the covers (every one of the n! permutations is produced) it is a
+/// bijection between the n! equiprobable index tuples and the permutations
+pub fn lemma_bijection<const NB: usize>() -> ([usize; NB], bool) {
+    let mut a = SymRng::new();
+    shuffle_words(&mut a, NB);
+    let mut b = SymRng::new();
+    shuffle_words(&mut b, NB);
+    let (wa, wb) = (a, b);
+    let mut pa = [0usize; NB];
+    let mut pb = [0usize; NB];
+    let mut i = 0;
+    while i < NB {
+        pa[i] = i;
+        pb[i] = i;
+        i += 1;
+    }
+    pa.shuffle(&mut a);
+    pb.shuffle(&mut b);
+    // a permutation: every item exactly once
+    let mut perm = true;
+    let mut x = 0;
+    while x < NB {
+        let mut cnt = 0;
+        let mut j = 0;
+        while j < NB {
+            if pa[j] == x {
+                cnt += 1;
+            }
+            j += 1;
+        }
+        perm &= cnt == 1;
+        x += 1;
+    }
+    vcheck!(perm, "SHUFFLE.result_is_a_permutation");
+    vcheck!(a.calls == NB - 1 && b.calls == NB - 1, "SHUFFLE.consumes_n_minus_one_words");
+    let mut same_perm = true;
+    let mut same_idx = true;
+    let mut i = 0;
+    while i < NB {
+        same_perm &= pa[i] == pb[i];
+        if i + 1 < NB {
+            // the i-th draw picks among NB - i items
+            let r = (NB - i) as u32;
+            same_idx &= index_u32(wa.pre[i] as u32, r) == index_u32(wb.pre[i] as u32, r);
+        }
+        i += 1;
+    }
+    vcheck!(!same_perm || same_idx, "SHUFFLE.distinct_index_tuples_give_distinct_permutations");
+    vcheck!(!same_idx || same_perm, "SHUFFLE.same_generator_words_same_permutation");
+    (pa, same_perm)
+}
+pub fn lemma_bijection_3() {
+    let (p, _) = lemma_bijection::<3>();
+    vcover!(p[0] == 0 && p[1] == 1, "cover.perm_012");
+    vcover!(p[0] == 0 && p[1] == 2, "cover.perm_021");
+    vcover!(p[0] == 1 && p[1] == 0, "cover.perm_102");
+    vcover!(p[0] == 1 && p[1] == 2, "cover.perm_120");
+    vcover!(p[0] == 2 && p[1] == 0, "cover.perm_201");
+    vcover!(p[0] == 2 && p[1] == 1, "cover.perm_210");
+}
+pub fn lemma_bijection_4() {
+    let (p, _) = lemma_bijection::<4>();
+    // rank of the permutation in lexicographic order (Lehmer code), all 24 must be reachable
+    let l0 = p[0];
+    let l1 = p[1] - (p[0] < p[1]) as usize;
+    let l2 = p[2] - (p[0] < p[2]) as usize - (p[1] < p[2]) as usize;
+    let rank = l0 * 6 + l1 * 2 + l2;
+    vcover!(rank == 0, "cover.perm_rank_00");
+    vcover!(rank == 1, "cover.perm_rank_01");
+    vcover!(rank == 2, "cover.perm_rank_02");
+    vcover!(rank == 3, "cover.perm_rank_03");
+    vcover!(rank == 4, "cover.perm_rank_04");
+    vcover!(rank == 5, "cover.perm_rank_05");
+    vcover!(rank == 6, "cover.perm_rank_06");
+    vcover!(rank == 7, "cover.perm_rank_07");
+    vcover!(rank == 8, "cover.perm_rank_08");
+    vcover!(rank == 9, "cover.perm_rank_09");
+    vcover!(rank == 10, "cover.perm_rank_10");
+    vcover!(rank == 11, "cover.perm_rank_11");
+    vcover!(rank == 12, "cover.perm_rank_12");
+    vcover!(rank == 13, "cover.perm_rank_13");
+    vcover!(rank == 14, "cover.perm_rank_14");
+    vcover!(rank == 15, "cover.perm_rank_15");
+    vcover!(rank == 16, "cover.perm_rank_16");
+    vcover!(rank == 17, "cover.perm_rank_17");
+    vcover!(rank == 18, "cover.perm_rank_18");
+    vcover!(rank == 19, "cover.perm_rank_19");
+    vcover!(rank == 20, "cover.perm_rank_20");
+    vcover!(rank == 21, "cover.perm_rank_21");
+    vcover!(rank == 22, "cover.perm_rank_22");
+    vcover!(rank == 23, "cover.perm_rank_23");
+}
+
+pub const fn shaped(base: GenCfg, shape: [u8; 4]) -> GenCfg {
+    GenCfg { shape, ..base }
+}
+pub const LOG1_OFF: GenCfg = GenCfg { ntrades: 1, ..OFF };
+pub const ALL: u32 = E8 | E10 | E11;
+
 vharnesses! {
+    // the step loop in isolation (process_event replaced by a logging stand-in), batches of 2..4
+    #[cfg_attr(kani, kani::unwind(6))]
+    #[cfg_attr(kani, kani::stub(bourse_book::OrderBook::process_event, bourse_book::OrderBook::verif_log_event))]
+    fn env_step_loop_b2() { step_loop::<3, 2, 2>(2, 1) }
+    #[cfg_attr(kani, kani::unwind(6))]
+    #[cfg_attr(kani, kani::stub(bourse_book::OrderBook::process_event, bourse_book::OrderBook::verif_log_event))]
+    fn env_step_loop_b3() { step_loop::<3, 2, 3>(2, 1) }
+    #[cfg_attr(kani, kani::unwind(6))]
+    #[cfg_attr(kani, kani::stub(bourse_book::OrderBook::process_event, bourse_book::OrderBook::verif_log_event))]
+    fn env_step_loop_b4() { step_loop::<3, 2, 4>(2, 0) }
+    // one arbitrary instruction, real process_event
     #[cfg_attr(kani, kani::unwind(4))]
-    fn c08_env_step_b2_m2() { step_env::<3, 2, 2>(2, 0, CFG, E8, 3) }
+    fn env_step_b1_any() { step_env::<3, 2, 1>(2, 1, LOG1, ALL, [EV_ANY]) }
     #[cfg_attr(kani, kani::unwind(4))]
-    fn c10_env_step_cache_b2_m2() { step_env::<3, 2, 2>(2, 0, CFG, E10, 3) }
+    fn env_step_b1_any_off() { step_env::<3, 2, 1>(2, 1, LOG1_OFF, ALL, [EV_ANY]) }
+    // C15 lemmas on the compiled rand code
     #[cfg_attr(kani, kani::unwind(4))]
-    fn c11_env_step_records_b2_m2_k1() { step_env::<3, 2, 2>(2, 1, CFG, E11, 3) }
+    fn c15_index_draw_lemma() { lemma_index_draw() }
     #[cfg_attr(kani, kani::unwind(4))]
-    fn probe_v1() { step_env::<3, 2, 2>(2, 0, OFF, E8, 3) }
+    fn c15_zone_lemma() { lemma_zone_is_multiple_of_range() }
+    #[cfg_attr(kani, kani::unwind(5))]
+    fn c15_bijection_3() { lemma_bijection_3() }
+    #[cfg_attr(kani, kani::unwind(6))]
+    fn c15_bijection_4() { lemma_bijection_4() }
+    // one submission between steps (tick symbolic 1..=10)
     #[cfg_attr(kani, kani::unwind(4))]
-    fn probe_v2() { step_env::<3, 2, 2>(2, 0, ON, E8, 1) }
+    fn env_submit_tick1_m2() { submit_env::<3, 2>(2, GenCfg { ntrades: 1, tick: 1, ..CFG }, ANY) }
     #[cfg_attr(kani, kani::unwind(4))]
-    fn probe_v3() { step_env::<3, 2, 2>(2, 0, ON, E8, 2) }
+    fn env_submit_tick2_m2() { submit_env::<3, 2>(2, GenCfg { ntrades: 1, tick: 2, ..CFG }, ANY) }
     #[cfg_attr(kani, kani::unwind(4))]
-    fn probe_v4() { step_env::<3, 2, 2>(1, 0, CFG, E8, 3) }
+    fn env_submit_tick3_m2() { submit_env::<3, 2>(2, GenCfg { ntrades: 1, tick: 3, ..CFG }, ANY) }
+    #[cfg_attr(kani, kani::unwind(4))]
+    fn env_submit_tick4_m2() { submit_env::<3, 2>(2, GenCfg { ntrades: 1, tick: 4, ..CFG }, ANY) }
+    #[cfg_attr(kani, kani::unwind(4))]
+    fn env_submit_tick5_m2() { submit_env::<3, 2>(2, GenCfg { ntrades: 1, tick: 5, ..CFG }, ANY) }
+    #[cfg_attr(kani, kani::unwind(4))]
+    fn env_submit_tick6_m2() { submit_env::<3, 2>(2, GenCfg { ntrades: 1, tick: 6, ..CFG }, ANY) }
+    #[cfg_attr(kani, kani::unwind(4))]
+    fn env_submit_tick7_m2() { submit_env::<3, 2>(2, GenCfg { ntrades: 1, tick: 7, ..CFG }, ANY) }
+    #[cfg_attr(kani, kani::unwind(4))]
+    fn env_submit_tick8_m2() { submit_env::<3, 2>(2, GenCfg { ntrades: 1, tick: 8, ..CFG }, ANY) }
+    #[cfg_attr(kani, kani::unwind(4))]
+    fn env_submit_tick9_m2() { submit_env::<3, 2>(2, GenCfg { ntrades: 1, tick: 9, ..CFG }, ANY) }
+    #[cfg_attr(kani, kani::unwind(4))]
+    fn env_submit_tick10_m2() { submit_env::<3, 2>(2, GenCfg { ntrades: 1, tick: 10, ..CFG }, ANY) }
+    // an idle step: clock, counter reset, one faithful record; nothing else moves
+    #[cfg_attr(kani, kani::unwind(4))]
+    fn env_step_b0_m2() { step_env::<3, 2, 0>(2, 1, LOG1, ALL, []) }
+    // three arbitrary instructions (duplicates, same-step cancels / modifies) on three orders
+    // created in this step, trading off: every schedule, stamps start+i, exactly once each
+    #[cfg_attr(kani, kani::unwind(5))]
+    fn env_step_b3_new_orders_off() { step_env::<3, 2, 3>(3, 0, shaped(OFF, [1, 1, 1, 0]), E8, [EV_ANY, EV_ANY, EV_ANY]) }
+    // two arbitrary instructions on an arbitrary two-entry table, trading off
+    #[cfg_attr(kani, kani::unwind(4))]
+    fn env_step_b2_any_off() { step_env::<3, 2, 2>(2, 1, LOG1_OFF, ALL, [EV_ANY, EV_ANY]) }
+    // a new bid and a new ask that may cross: who is the aggressor depends on the schedule
+    #[cfg_attr(kani, kani::unwind(4))]
+    fn env_step_b2_cross_on_s0() { step_env_sched::<3, 2, 2>(2, 1, shaped(ON, [10, 11, 0, 0]), ALL, [ev(0, 0), ev(0, 1)], Some(SCHED2[0])) }
+    #[cfg_attr(kani, kani::unwind(4))]
+    fn env_step_b2_cross_on_s1() { step_env_sched::<3, 2, 2>(2, 1, shaped(ON, [10, 11, 0, 0]), ALL, [ev(0, 0), ev(0, 1)], Some(SCHED2[1])) }
+    // a resting bid is modified while a new ask arrives: modify-before-fill vs fill-before-modify
+    #[cfg_attr(kani, kani::unwind(4))]
+    fn env_step_b2_modify_vs_fill_on() { step_env::<3, 2, 2>(2, 0, shaped(ON, [20, 11, 0, 0]), E8, [ev(2, 0), ev(0, 1)]) }
+    // a resting ask is cancelled while a new bid arrives
+    #[cfg_attr(kani, kani::unwind(4))]
+    fn env_step_b2_cancel_vs_fill_on() { step_env::<3, 2, 2>(2, 0, shaped(ON, [21, 10, 0, 0]), E8, [ev(1, 0), ev(0, 1)]) }
 }
